@@ -12,6 +12,18 @@ FAMILIES = [("Sat3", "any"), ("Sat3", "any"), ("Rat", "acyclic"), ("Bool", "any"
 
 def generate(rng, tier, shard, nshards):
     yield from generate_family(rng, shard, nshards)
+    # integer token ids (0 included): a token is never "no token"
+    for gi in range(3 if tier == "quick" else 20):
+        srn = ["Sat3", "Rat", "Bool"][gi % 3]
+        g = fam.rand_cfg(rng, gops.SR[srn], shape="acyclic" if srn == "Rat" else "any", nN=3, nrules=4, V=(0, 1))
+        g.add(gops.us.mk(g.R, 1), g.S, 0, 1)
+        g.add(gops.us.mk(g.R, 1), g.S, 0)
+        G, _ = cfg_proj(g)
+        for p in fam.strings(g.V, 2):
+            yield gops.event("prefix", {"sr": srn, "G": G, "s": gops.seq(p), "how": "prefix_weight"}, site="prefix_weight",
+                             feat="int-tokens")
+        yield gops.event("prefixgrammar", {"sr": srn, "G": G, "L": 2}, site="prefix_grammar", feat="int-tokens")
+        yield gops.event("derivative", {"sr": srn, "G": G, "pre": gops.seq((0,)), "L": 2}, site="derivative", feat="int-tokens")
     n = 12 if tier == "quick" else 120
     L = 3 if tier == "quick" else 4
     for gi in range(n):
